@@ -55,11 +55,14 @@ def cases(tier, seed):
                           ((2,) if si % 2 else (3,))):
             yield {'L': L, 'shape': shape, 'scheme': 'BDE'[si % 3],
                    'cells_per': cells_per, 'seed': seed, 'tier': tier}
-            if n >= 3 and (si % 3 == 0 or tier == 'thorough'):
-                # one leaf of the taxonomy has no reference cell at all
-                yield {'L': L, 'shape': shape, 'scheme': 'BDE'[si % 3],
-                       'cells_per': cells_per, 'seed': seed, 'tier': tier,
-                       'empty_leaf': True}
+        if n >= 3 and (si % 3 == 0 or tier == 'thorough'):
+            # one leaf of the taxonomy has no reference cell at all (with
+            # 3-4 cells in the others: pairs of two-cell clusters have no
+            # significant marker, and the emptied leaf must not be the only
+            # source of markers)
+            yield {'L': L, 'shape': shape, 'scheme': 'BDE'[si % 3],
+                   'cells_per': 3, 'seed': seed, 'tier': tier,
+                   'empty_leaf': True}
 
 
 def evaluate(case, scratch):
